@@ -22,7 +22,7 @@ class StarOperator(Expression):
         return schema.fields
 
     def eval(self, row, schema):
-        return [row[col] for col in row.__fields__]
+        return list(row)
 
     def __str__(self):
         return "*"
